@@ -273,6 +273,20 @@ def body_exec(E, flavour, n, mode, base, j1, j2, j3):
         return ok
 
 
+def body_exec_big(E, flavour, n, mode, base):
+    """larger sweeps through an executor (size thresholds: chunking, bounded windows of pending tasks ...);
+    tasks complete in submission order"""
+    flavour = concretize(flavour, 0, 2)
+    n = concretize(n, 30, 70)
+    mode = concretize(mode, 0, 2)
+    shape = (n,) if n % 2 else (n // 2, 2)
+    values = [[10 * (ai + 1) + i for i in range(s)] for ai, s in enumerate(shape)]
+    with E() as env:
+        ex = [basic.SubmitExecutor, basic.ApplyAsyncExecutor, basic.MPPoolExecutor][flavour](None)
+        ok = run_and_check(env, shape, values, {"k": 1}, 0, mode, 2 if mode == 1 else 0, base, executor=ex)
+        return ok and ex.ran == n and not ex._pending
+
+
 def body_badexec(E):
     """an executor without submit/apply_async is rejected with TypeError"""
     with E():
@@ -353,6 +367,10 @@ CONDS = [
                "0 <= j1 <= 1 and 0 <= j2 <= 2 and 0 <= j3 <= 3"], timeout=150,
               bounds="executor= submit-style / apply_async(*args)-style / multiprocessing.pool.Pool subclass; "
                      "N<=4 tasks, every completion order; nested/split/flat"),
+    make_cond(_G, "exec_big", body_exec_big, "flavour:int n:int mode:int base:int",
+              ["0 <= flavour <= 2 and 0 <= mode <= 2", "n == 33 or n == 40 or n == 65"], timeout=300,
+              bounds="33, 40 (20x2) and 65 tasks through each executor flavour, completion in submission order: "
+                     "every result in its own slot (size thresholds of the collection loop)"),
     make_cond(_G, "exec_parallel", body_exec, "flavour:int n:int mode:int base:int j1:int j2:int j3:int",
               ["3 <= flavour <= 4 and 1 <= n <= 4 and 0 <= mode <= 2",
                "0 <= j1 <= 1 and 0 <= j2 <= 2 and 0 <= j3 <= 3"], timeout=150,
